@@ -6,6 +6,7 @@ CONSTANTS
   InitSeq <- MCInit
   InitTok <- MCInitTok
   InitRaw = {}
+  SubOf <- MCSub
   HasLF0 = TRUE
   HasAT0 = FALSE
   Slack = 2
